@@ -226,6 +226,16 @@ pub fn record_menu() -> Vec<Rec> {
         r("truncated_m_clear", RecClass::Bad, avp_record(0x00, 0, 15, &[1, 2])),
         r("vendor_hidden_flag", RecClass::Bad, avp_record(0x03, 0x1234, 7, &ramp(16))),
         r("stray", RecClass::Stray, vec![0x00, 0x08, 0x00]),
+        // appended later (indices above are referred to by stored cases): records whose decoding
+        // differs as soon as a payload decoder is allowed to look beyond the declared extent, or
+        // is stopped short of it
+        r("empty_fixed", RecClass::Bad, avp_record(0x01, 0, 2, &[])),
+        r("empty_variable", RecClass::Bad, avp_record(0x01, 0, 37, &[])),
+        r("u16_surplus_is_avp", RecClass::Good, {
+            let mut p = vec![0x12, 0x34];
+            p.extend_from_slice(&avp_record(0x01, 0, 39, &[]));
+            avp_record(0x01, 0, 9, &p)
+        }),
     ]
 }
 
@@ -838,6 +848,42 @@ pub fn w6(ctx: &mut Ctx, _tier: Tier, sink: Sink) {
         m.extend_from_slice(&SID.to_be_bytes());
         m.extend_from_slice(&ramp(total - 8));
         cases.push((Entry::Message, m));
+    }
+    // data messages whose offset padding alone is almost 64 KiB and really present: header size
+    // plus padding passes 65 535 (any 16-bit intermediate wraps), with and without L and S
+    for has_l in [true, false] {
+        for has_s in [false, true] {
+            let hdr = 2 + 4 + if has_l { 2 } else { 0 } + if has_s { 4 } else { 0 } + 2;
+            for offset in 0xffecu16..=0xffff {
+                let lengths: Vec<u16> = if has_l {
+                    vec![0xffff, (hdr as u32 + offset as u32) as u16, (hdr as u32 + offset as u32 + 3) as u16, 20]
+                } else {
+                    vec![0]
+                };
+                for length in lengths {
+                    let mut flags: u16 = (2 << 4) | spec::F_O;
+                    if has_l {
+                        flags |= spec::F_L;
+                    }
+                    if has_s {
+                        flags |= spec::F_S;
+                    }
+                    let mut m = flags.to_be_bytes().to_vec();
+                    if has_l {
+                        m.extend_from_slice(&length.to_be_bytes());
+                    }
+                    m.extend_from_slice(&TID.to_be_bytes());
+                    m.extend_from_slice(&SID.to_be_bytes());
+                    if has_s {
+                        m.extend_from_slice(&NS.to_be_bytes());
+                        m.extend_from_slice(&NR.to_be_bytes());
+                    }
+                    m.extend_from_slice(&offset.to_be_bytes());
+                    m.extend_from_slice(&ramp(offset as usize + 40));
+                    cases.push((Entry::Message, m));
+                }
+            }
+        }
     }
     for (entry, bytes) in cases {
         if !ctx.mine() {
